@@ -1,6 +1,6 @@
 """C04 -- conflicting NPU/DMA accesses are always separated by a wait or block dependency.
 Proof (coq/props/C04.v): waits_separate (get_wait_dependency, all histories, abstract conflict relation),
-rangeset_intersects_spec / conflicts_spec (range_set.py), blockdep_sound (calc_blockdep's double loop),
+rangeset_intersects_spec / conflicts_spec (range_set.py), blockdep_sound (calc_blockdep's double loop), footprint_overapprox,
 check_hazards_sound (validator on decoded streams).
 Tie (device H): the extracted models (build/waits) are run against the real get_wait_dependency, RangeSet,
 MemoryRangeSet, MemoryAccessSet and calc_blockdep on generated cases; independent Python oracles state the
@@ -568,7 +568,8 @@ def gen_oplist(rng, api, acc, arch):
 
 
 def corpus_oplists(api, arch_of):
-    """fixed op lists run first: the wait tests of the repository's suite and the witness of footprint_overapprox_refuted"""
+    """fixed op lists run first: the witness of the repaired get_address_ranges defect (must now get its DMA_WAIT) and the
+    wait tests of the repository's suite"""
     out = []
     acc = api.NpuAccelerator.Ethos_U55_128
     op = api.NpuPoolingOperation(api.NpuPoolingOp.MAX)
@@ -578,7 +579,7 @@ def corpus_oplists(api, arch_of):
     op.padding = api.NpuPadding(0, 0, 0, 0)
     op.block_config = api.npu_find_block_configs(op, acc)[0]
     dma = api.NpuDmaOperation(api.NpuAddressRange(0, 0, 0x100), api.NpuAddressRange(1, 0x2000, 0x100))
-    out.append((acc, [dma, op], ["dma 0->0x2000 len 256", "pool 0x0->0x8000 ifm tiles (8,4,4,[0,0x1000,0,0x2000]) [tiles 0,1,3]"]))
+    out.append((acc, [dma, op], ["corpus:tile3_witness", "dma 0->0x2000 len 256", "pool 0x0->0x8000 ifm tiles (8,4,4,[0,0x1000,0,0x2000]) [tiles 0,1,3]"]))
     try:
         from ethosu.vela.test.extapi import test_extapi_generate_commands as tx
         conv, dmas = tx.setup_memory_barrier_tests()
@@ -871,18 +872,19 @@ def run(tier):
             if r != m:
                 diffs.append(("calc_blockdep", {"flat_case": c, "accelerator": a.name, "tag": str(tag)}, r, m))
 
-    # ---------------------------------------------------------------- witness of footprint_overapprox_refuted on the real code
+    # ---------------------------------------------------------------- footprint_overapprox on the real code: the former defect's witness
+    # (fixed in repo commit de3dc4c: get_address_ranges left out tile 3 of a feature map using tiles 0, 1 and 3) must stay covered
     from ethosu.vela.register_command_stream_util import get_address_ranges, get_address, get_strides
     wfm = mk_fm(api, 8, 8, 16, 1, 0, "NHWC", 8, tiles=(8, 4, 4, [0x0, 0x1000, 0, 0x2000]))
     wr = get_address_ranges(wfm)
     wad = get_address(wfm, get_strides(wfm), 4, 4, 0)
-    stats["refutation_witness_replayed"] = 1
+    stats["tile3_witness_replayed"] = 1
     if not any(r is not None and r.region == 1 and r.address <= wad < r.address + r.length for r in wr):
         fails.append(({"kind": "footprint", "defect": "get_address_ranges_omits_tile3"},
                       {"feature_map": {"shape": [8, 8, 16], "layout": "NHWC", "tiles": {"height_0": 8, "height_1": 4, "width_0": 4,
                                        "addresses": [0, 0x1000, 0, 0x2000]}},
                        "element": [4, 4, 0], "get_address": wad, "get_address_ranges": [None if r is None else list(r) for r in wr],
-                       "theorem": "footprint_overapprox_refuted (coq/props/C04.v)"},
+                       "theorem": "footprint_overapprox (coq/props/C04.v) no longer describes the code"},
                       "get_address_ranges omits tile 3 of a feature map that uses tiles 0, 1 and 3 (width > width_0, height_1 < height "
                       "<= height_0): element (4,4,0) at address %#x is in no reported range, so the conflict test cannot see it" % wad))
 
@@ -919,6 +921,24 @@ def run(tier):
                     continue
                 acases.append(cse)
                 areal.append(real)
+        # footprint_overapprox on the implementation: every byte of every generated feature map lies in a reported range
+        for a, ops, desc, words in hmeta:
+            for op_ in ops:
+                if isinstance(op_, api.NpuDmaOperation):
+                    continue
+                for f in (op_.ifm, op_.ifm2 if op_.ifm2_scalar is None else None, op_.ofm):
+                    if f is None:
+                        continue
+                    stats["footprint_oracle_fms"] += 1
+                    rs_ = [r for r in get_address_ranges(f) if r is not None]
+                    bad = [ad for rg, ad in fm_bytes(f) if not any(r.region == rg and r.address <= ad < r.address + r.length for r in rs_)]
+                    if bad:
+                        key = ({"kind": "footprint", "defect": "get_address_ranges_omits_tile3"} if tiles_013(f)
+                               else {"kind": "footprint", "layout": f.layout.name, "tiles": str(tuple(f.tiles))})
+                        fails.append((key, {"shape": list(f.shape), "tiles": [f.tiles.height_0, f.tiles.height_1, f.tiles.width_0, list(f.tiles.addresses)],
+                                            "layout": f.layout.name, "first_uncovered_address": min(bad), "ranges": [list(r) for r in rs_]},
+                                      "get_address_ranges does not cover byte %#x of a feature map (shape %s tiles %s)"
+                                      % (min(bad), tuple(f.shape), tuple(f.tiles))))
         for cse, real, m in zip(acases, areal, models.run_parallel("op_accesses", acases, exe_name=EXE)):
             stats["op_accesses_cases"] += 1
             if m[0] != 1:
@@ -937,6 +957,14 @@ def run(tier):
             if sw is not None and any(w for _, _, w in sw):
                 nontrivial.add(("api", a.name, len(ops), sum(len(w) for _, _, w in sw)))
             why, pair = None, None
+            if desc and desc[0] == "corpus:tile3_witness" and sw is not None and len(sw) == 2 and \
+                    not any(code == 17 for code, _n in sw[1][2]):
+                # the corpus witness of the repaired defect: DMA into tile 3 of the pool's IFM, then the pool: a DMA_WAIT is required
+                fails.append(({"kind": "api_stream", "defect": "get_address_ranges_omits_tile3"},
+                              {"accelerator": a.name, "ops": desc, "words": list(words), "validator": o},
+                              "npu_generate_register_command_stream: no DMA_WAIT between a DMA into tile 3 of a feature map using tiles 0, 1 "
+                              "and 3 and the operation reading it"))
+                continue
             if o[0] != 1 or sw is None or len(sw) != len(ops):
                 why = "emitted stream does not decode to the given operations"
             else:
